@@ -495,6 +495,9 @@ def shared_state(ctx, o):
             for st in c.node.body:
                 if isinstance(st, (ast.Assign, ast.AnnAssign)) and st.value is not None:
                     o.count()
+                    alias_ = isinstance(st, ast.Assign) and all(isinstance(t, ast.Name) and t.id in getattr(c, 'method_aliases', ()) for t in st.targets)
+                    if alias_:
+                        continue        # `name = OtherClass.method`: another name for a function, not state
                     if not _immutable(st.value) and not (isinstance(st.value, ast.Call) and ast.unparse(st.value.func) in ('auto', 'enum.auto')):
                         o.fail(P, c.name, st, 'class-level mutable object is shared by all instances of all simulations of the process', file=m.path, line=st.lineno)
     for m, c, fn in inv.functions(P):
